@@ -305,6 +305,8 @@ def _decorate(obj, plan, kind):
     if 'matrix' in dec:
         o.descriptors['noise'] = np.array([[2.0, 0.5], [0.5, 1.0]])
         o.descriptors['vec'] = np.array([1.5, -2.0, 3.25])
+        o.descriptors['noise1'] = np.array([[2.5]])          # the 1 x 1 precision of a single channel is still a matrix
+        o.descriptors['one'] = np.array([4])
     if 'nomeasure' in dec and kind == 'rdms':
         o.dissimilarity_measure = None
     if 'floatdesc' in dec:
